@@ -1,7 +1,8 @@
 (* C11/Props.v — property theorems only (proved in Proofs.v / StreamLemmas.v).
 
    Scope (partial by design): the covered grammar of Spec.v (one field; raw select or one of
-   count/sum/mean/min/max/first/last/spread/median; time range; one tag predicate; GROUP BY
+   count/sum/mean/min/max/first/last/spread/median/mode/distinct/percentile(f,N)/
+   count(distinct(f)); time range; one tag predicate; GROUP BY
    time(interval[,offset]) and tags; fill; ORDER BY time DESC; LIMIT/OFFSET) over data sets
    in exact arithmetic (integers; floats that are integers).  Not covered: subqueries,
    several fields or calls, regex sources, math, time zones, float rounding (mean's
@@ -50,8 +51,32 @@ Theorem agg_decomposable :
 Proof. exact agg_decomposable_lemma. Qed.
 Print Assumptions agg_decomposable.
 
+(* spread, median, mode, percentile, distinct and count(distinct) are evaluated above the last
+   merge on all raw points of a (tag set, window); the order in which those points arrive there
+   depends on the layout (unsorted MergeIterator for spread/mode; equal timestamps in input
+   order for the others).  Every such aggregate - value, reported time, and for distinct the
+   list of rows and their order - is the same for every arrival order of the same points. *)
+Theorem slice_aggregates_order_independent :
+  forall ft f (desc : bool) (l l' : list tv),
+  is_slice_fn f = true -> Permutation l l' -> aggs ft f desc l = aggs ft f desc l'.
+Proof. exact aggs_perm. Qed.
+Print Assumptions slice_aggregates_order_independent.
+
+(* percentile(f, N) reports one of the points of the (tag set, window) - value and time of the
+   same point - and mode(f) (numbers, strings) one of its values, for every group and every N *)
+Theorem percentile_reports_a_point :
+  forall (p2 : Z) (l : list tv) (p : vt), percentile_sorted p2 (vsort l) = Some p -> In (snd p, fst p) l.
+Proof. exact percentile_in_group. Qed.
+Print Assumptions percentile_reports_a_point.
+
+Theorem mode_reports_a_value :
+  forall (l : list tv) (v : Z), mode_scan (vsort l) = Some v -> In v (map snd l).
+Proof. exact mode_in_group. Qed.
+Print Assumptions mode_reports_a_value.
+
 (* The modelled evaluation over ANY layout (nodes x shards, any assignment of the points)
-   equals the reference evaluation over the raw points.  Gap: covered grammar, exact
+   equals the reference evaluation over the raw points, for every function of the grammar
+   (mode / distinct / percentile / count(distinct) included).  Gap: covered grammar, exact
    arithmetic, no SLIMIT/SOFFSET (see the header). *)
 Theorem eval_eq_reference_partial :
   forall ft s (L : layout) (data : list point),
@@ -103,12 +128,13 @@ Theorem harness_layouts_are_layouts :
 Proof. exact layout_of_valid. Qed.
 Print Assumptions harness_layouts_are_layouts.
 
-(* the source still pushes down exactly count/sum/mean/min/max/first/last and merges count
-   as sum (constants regenerated by genconsts) *)
+(* the source still pushes down exactly count/sum/mean/min/max/first/last (not spread, median,
+   distinct, mode, percentile) and merges count as sum (constants regenerated by genconsts) *)
 Theorem source_configuration :
   (c11_call_iterator_count && c11_call_iterator_sum && c11_call_iterator_mean &&
    c11_call_iterator_min && c11_call_iterator_max && c11_call_iterator_first &&
    c11_call_iterator_last && negb c11_call_iterator_spread && negb c11_call_iterator_median &&
+   negb c11_call_iterator_distinct && negb c11_call_iterator_mode && negb c11_call_iterator_percentile &&
    c11_merge_count_as_sum)%bool = true.
 Proof. exact consts_ok. Qed.
 Print Assumptions source_configuration.
@@ -142,3 +168,17 @@ Example agg_example :
   fold_right (fun p acc => ocomb TInt FLast (pfold TInt FLast p) acc) None [[(1, 5); (9, 2)]; []; [(9, 4); (3, 8)]]
   = Some (9, 4).
 Proof. vm_compute. reflexivity. Qed.
+
+(* the new functions on a group with frequency ties, equal values at different times and a
+   value that occurs once: mode = most frequent, then seen earliest; percentile(50) = rank
+   floor(7*0.5+0.5)-1 = 3 in (value, time) order, with that point's time; distinct in the
+   order of first appearance forwards and of last appearance under DESC *)
+Definition ex_group : list tv := [(5, 7); (1, 3); (9, 7); (2, 4); (6, 3); (8, 4); (3, 1)].
+Example slice_examples :
+  aggs TInt FMode false ex_group = [(None, RInt 3)] /\
+  aggs TInt (FPercentile 100) false ex_group = [(Some 2, RInt 4)] /\
+  aggs TInt FDistinct false ex_group = [(None, RInt 3); (None, RInt 4); (None, RInt 1); (None, RInt 7)] /\
+  aggs TInt FDistinct true ex_group = [(None, RInt 7); (None, RInt 4); (None, RInt 3); (None, RInt 1)] /\
+  aggs TInt FCountDistinct true ex_group = [(None, RInt 4)] /\
+  aggs TInt FMode true (rev ex_group) = aggs TInt FMode false ex_group.
+Proof. vm_compute. repeat split; reflexivity. Qed.
